@@ -443,7 +443,7 @@ mod k {
         std::mem::forget(r);
     }
 
-    /// VERIF: {"p":"C19","tier":"quick","fns":["config::parse_duration"],"bounds":"Yaml::Integer(i) for all 2^64 i (negative, zero, huge)","oracle":"never a panic; a non-negative integer is that many seconds. (Not asserted, only witnessed by a cover: a NEGATIVE integer is accepted and becomes 2^64+i seconds through `as u64`)","covers":3}
+    /// VERIF: {"p":"C19","tier":"quick","fns":["config::parse_duration"],"bounds":"Yaml::Integer(i) for all 2^64 i (negative, zero, huge)","oracle":"never a panic; a non-negative integer is that many seconds; a negative integer is refused with InvalidConfig (not wrapped to 2^64+i seconds)","covers":3}
     #[kani::proof]
     fn c19_parse_duration_integer_all_i64() {
         let i: i64 = kani::any();
@@ -451,10 +451,12 @@ mod k {
         let r = parse_duration("lifetime", &y);
         kani::cover!(i == i64::MAX, "largest integer");
         kani::cover!(i == 0, "zero");
-        kani::cover!(i == -1 && matches!(&r, Ok(Some(d)) if d.as_secs() == u64::MAX), "observation: `lifetime: -1` is accepted as 18446744073709551615 s");
+        kani::cover!(i == -1, "negative");
         assert!(matches!(r, Ok(Some(_)) | Err(Error::InvalidConfig(_))), "integer durations: a value or InvalidConfig");
         if i >= 0 {
             assert!(matches!(&r, Ok(Some(d)) if d.as_secs() == i as u64 && d.subsec_nanos() == 0), "non-negative integer = seconds");
+        } else {
+            assert!(matches!(&r, Err(Error::InvalidConfig(_))), "a negative integer is refused, not wrapped to 2^64 - n seconds");
         }
     }
 
